@@ -8,6 +8,7 @@ import (
 	"time"
 
 	"github.com/consensys/gnark-crypto/ecc"
+	"github.com/consensys/gnark/constraint/solver"
 	"github.com/consensys/gnark/frontend"
 	"github.com/consensys/gnark/internal/verifh/circ"
 	"github.com/consensys/gnark/internal/verifh/vh"
@@ -142,6 +143,23 @@ func funcRange(c *vh.Check, jobs *[]job) {
 					break
 				}
 			}
+			// one checked variable holds k/2^s (the others 1): out of range although its scaled copies are small
+			fv, fn := fracValues(k.field)
+			for j := range t.widths {
+				if j > 0 && t.widths[j] == t.widths[j-1] {
+					continue
+				}
+				for vi, v := range fv {
+					sec := make([]*big.Int, len(t.widths))
+					for i := range sec {
+						sec[i] = big.NewInt(1)
+					}
+					sec[j] = v
+					e := k.solve(c, nil, sec)
+					c.Traces.Add(1)
+					judge(c, fmt.Sprintf("c13:func:%s:pos=%d:v=%s", k.name, j, fn[vi]), "func:range-frac:"+k.builder, inRange(v, t.widths[j]), e, map[string]any{"widths": t.widths, "position": j, "value": fn[vi]})
+				}
+			}
 			c.Count("func", fmt.Sprintf("range-circuits:k=%d", len(t.widths)), 1)
 		}})
 	}
@@ -185,13 +203,19 @@ func funcBulk(c *vh.Check, jobs *[]job) {
 		extra int // one more variable of this width (0 = none)
 	}
 	var tasks []task
-	counts := []int{20, 300, 3000}
+	counts := []int{20, 48, 300, 3000}
 	if !c.Quick() {
 		counts = append(counts, 10000)
 	}
 	for _, m := range counts {
 		for _, w := range []int{17, 64, 65} {
-			for _, extra := range []int{0, 9} {
+			for _, extra := range []int{0, 9, 3, 1} {
+				if extra > 0 && extra < 9 && (m >= 3000 || w == 65) {
+					continue
+				}
+				if m == 48 && w != 64 {
+					continue
+				}
 				for _, cv := range curves {
 					for _, b := range builders {
 						if (c.Quick() && m >= 3000 || m >= 10000) && (cv != ecc.BN254 || extra == 0 || w == 65) {
@@ -227,7 +251,24 @@ func funcBulk(c *vh.Check, jobs *[]job) {
 				return sec
 			}
 			positions := []int{0, len(widths) / 2, len(widths) - 1}
+			// observe the limb width the gadget chose (inputs of the decomposition hint)
+			base := 0
+			k.setHook(func(id solver.HintID, q *big.Int, in, out []*big.Int, err error) error {
+				if id == decompID {
+					base = int(in[1].Int64())
+				}
+				return err
+			})
 			e := k.solve(c, nil, fill())
+			k.setHook(nil)
+			if t.extra > 0 {
+				rel := "wider-than"
+				if t.extra > base {
+					rel = "not-wider-than"
+				}
+				c.Count("func", fmt.Sprintf("bulk limb width %s the narrowest checked variable (single partially filled limb)", rel), 1)
+				c.Outcome("func:bulk:limb-" + rel + "-narrowest-variable")
+			}
 			c.Traces.Add(1)
 			judge(c, "c13:func:"+k.name+":all-in-range", "func:bulk:"+k.builder, true, e, map[string]any{"widths": name})
 			for _, pos := range positions {
@@ -238,6 +279,17 @@ func funcBulk(c *vh.Check, jobs *[]job) {
 					e := k.solve(c, nil, sec)
 					c.Traces.Add(1)
 					judge(c, fmt.Sprintf("c13:func:%s:pos=%d:v=%s", k.name, pos, names[vi]), "func:bulk:"+k.builder, inRange(v, widths[pos]), e, map[string]any{"widths": name, "position": pos, "value": v.String()})
+				}
+				if t.m >= 3000 && pos != len(widths)-1 {
+					continue
+				}
+				fv, fn := fracValues(k.field)
+				for vi, v := range fv {
+					sec := fill()
+					sec[pos] = v
+					e := k.solve(c, nil, sec)
+					c.Traces.Add(1)
+					judge(c, fmt.Sprintf("c13:func:%s:pos=%d:v=%s", k.name, pos, fn[vi]), "func:bulk-frac:"+k.builder, inRange(v, widths[pos]), e, map[string]any{"widths": name, "position": pos, "value": fn[vi]})
 				}
 			}
 			c.Count("func", "bulk-circuits", 1)
